@@ -102,12 +102,24 @@ def reference_graph(spec):
         g = denver_graph()
     elif kind == "parallel":
         g = parallel_graph()
+    elif kind == "connector":
+        g = connector_graph()
     else:
         raise ValueError(spec)
     for u, v, d in g.edges(data=True):
         if "travel_time" not in d:
             d["travel_time"] = d["length"] / 1000.0 / float(d.get("speed_kmph", 40.0)) * 3600.0
     return g
+
+
+def connector_graph():
+    """a street with a 5 m connector between two junctions (1-2) and a detour around it (1-4-2): on a coarser location grid
+    (resolution 12, cells of ~9 m) both ends of the connector lie in ONE cell"""
+    nodes = {0: (0.0, 0.0), 1: (0.3, 0.0), 2: (0.305, 0.0), 3: (0.6, 0.0), 4: (0.3025, 0.1)}
+    edges = []
+    for u, v, sp in [(0, 1, 40), (1, 2, 10), (2, 3, 40), (1, 4, 40), (4, 2, 40)]:
+        edges += [(u, v, sp, 1.0), (v, u, sp, 1.0)]
+    return _graph(nodes, edges)
 
 
 def parallel_graph():
@@ -149,6 +161,8 @@ def build(spec) -> object:
         return OSMRoadNetwork(denver_graph(), sim_h3_resolution=15)
     if kind == "parallel":
         return OSMRoadNetwork(parallel_graph(), sim_h3_resolution=15)
+    if kind == "connector":
+        return OSMRoadNetwork(connector_graph(), sim_h3_resolution=spec[1] if len(spec) > 1 else 12)
     raise ValueError(spec)
 
 
